@@ -504,24 +504,27 @@ def r7(ctx, rep):
     rep.rule("C04.R7", "a window range counts as 'not given' only when both bounds exist and start > end; computes are hoisted over take only when plain", floor=6)
     syn = ctx.syn
     f = syn.fn("transforms::range_is_empty", crate="prqlc")
-    # `match (&range.0, &range.1) { (Some(s), Some(e)) => s > e, _ => false }`  or  `matches!(range, (Some(s), Some(e)) if s > e)`
-    t = tail_expr(f["body"])
-    scrut = pat = cond = None
-    rows = []
-    if t is not None and t.get("k") == "match":
-        scrut = show(t["e"])
-        rows = [(show(arm["pat"]), show(arm["body"]), show(arm.get("guard")) if arm.get("guard") is not None else None) for arm in t["arms"]]
-        if len(rows) == 2 and rows[1][0] == "_" and rows[1][1] == "false":
-            pat, cond = (rows[0][0], rows[0][1]) if rows[0][2] is None else ((rows[0][0], rows[0][2]) if rows[0][1] == "true" else (None, None))
-    elif t is not None and t.get("k") == "macro" and t["n"] == "matches" and t.get("guard") is not None:
-        scrut, pat, cond = show(t["a"][0]), show(t["pat"]), show(t["guard"])
-        rows = [(pat, cond)]
-    mm = re.match(r"^\(Some\((\w+)\), Some\((\w+)\)\)$", pat or "")
-    c_ = (cond or "").replace("(", "").replace(")", "").replace("*", "").strip()
-    ok_r = bool(mm) and c_ in (f"{mm.group(1)} > {mm.group(2)}", f"{mm.group(2)} < {mm.group(1)}") and scrut in ("(&range.0, &range.1)", "range", "*range", "(range.0, range.1)")
-    m = {"e": {"k": "path", "p": scrut or "?", "l": f["l"]}}
+    # evaluated on representative ranges (abstract interpretation over Option<i64>, no program is run), whatever it is spelled like:
+    # `match (&range.0, &range.1) { (Some(s), Some(e)) => s > e, _ => false }`, `matches!(range, (Some(s), Some(e)) if s > e)`,
+    # `range.0.zip(range.1).map_or(false, |(s, e)| s > e)` ..
+    import optlin
+    pn = [p_["name"] for p_ in f.get("params", []) if isinstance(p_, dict) and "name" in p_]
+    cases = [((None, None), False), ((1, None), False), ((None, 1), False), ((2, 1), True), ((1, 1), False), ((1, 2), False), ((0, -1), True), ((-3, -1), False)]
+    wrong = []
+    for (a_, b_), want in cases:
+        val = ("tuple", tuple(optlin.NONE if x is None else optlin.some(optlin.lin(None, x)) for x in (a_, b_)))
+        try:
+            got = optlin.Interp().block(f["body"], {pn[0]: val})[0] if pn else None
+        except optlin._Return as r_:
+            got = r_.value
+        except optlin.Unsupported as e_:
+            wrong.append(f"not readable ({e_})")
+            break
+        if got != ("bool", want):
+            wrong.append(f"({a_}, {b_}) -> {got[1] if isinstance(got, tuple) and got and got[0] == 'bool' else got}, expected {want}")
+    ok_r = bool(pn) and not wrong
     rep.check(ok_r, "range_is_empty",
-              f"an open bound is unbounded: only (Some(s), Some(e)) with s > e is the empty (= default, not given) range; found match {show(m['e'])} {rows}: "
+              f"an open bound is unbounded: only (Some(s), Some(e)) with s > e is the empty (= default, not given) range; found {wrong[:3]}: "
               "otherwise `window rows:1..` is silently replaced by the whole partition", file=f["file"], line=f["l"], fn=f["path"])
     # the defaults in std.prql that mean "not given" are empty ranges under that definition
     w = [d for d in ctx.std["std"] if d["path"] == "window"]
